@@ -94,6 +94,7 @@ def run(ctx, prog):
     ctx.rule('C09.Q3', 'every <cmath> call resolves to the long double overload')
     ctx.rule('C09.Q4', 'every double/float literal taking part in an evaluator is exactly representable (clang APFloat exactness of the source spelling)')
     ctx.rule('C09.Q5', 'no integer/integer division whose result is converted to floating point unless both operands are literals and the division is exact')
+    ctx.rule('C09.Q7', 'no evaluator, after its helpers are inlined, takes log() of a value produced by exp(): the composition loses the range and, near the limits, the digits of the working precision')
     ctx.rule('C09.Q6', 'pi, PI and twopi of the long double instantiation are initialised through long double overloads from exact arguments')
     ctx.explanation = ('Necessary conditions for "the long double interface is not silently limited to double accuracy": any Q-violation is a concrete site where a '
                        'long double result carries double rounding error for every input. Error bounds and NaN/Inf freedom quantify over run-time magnitudes and are not decided.')
@@ -115,6 +116,33 @@ def run(ctx, prog):
             key = '%s|%s' % (q.replace('MASA::', '').replace('<long double>', ''), sig.replace('long double', 'S'))
             check_function(ctx, f, key)
     ctx.floor('functions_reachable_from_evaluators<long double>', n, 270)
+    # ---- Q7: range compression.  After forward substitution (helpers inlined) no evaluator takes the logarithm of a value that
+    # was produced by exp(): where exp() under- or overflows the logarithm returns -inf/+inf although the composition is a
+    # representable finite number (and digits are lost in the subnormal range).
+    from .. import terms
+    n7 = 0
+    for cls, _, _ in ents:
+        for name, sig, f in evaluator_overrides(prog, cls, scalar):
+            E = terms.Evaluator(prog, dyn_class=cls, scalar=scalar)
+            try:
+                outs = E.run(f)
+            except RecursionError:
+                continue
+            hits = []
+            for o in outs:
+                if o.ret is None:
+                    continue
+                for st in terms.subterms(o.ret):
+                    if st[0] == 'call' and st[1] in ('log', 'log10', 'log2') and st[2]:
+                        a = st[2][0]
+                        facs = a[1] if a[0] == 'mul' else (a,)
+                        if any(x[0] == 'call' and x[1] in ('exp', 'exp2') for x in facs):
+                            hits.append(terms.fmt(st)[:70])
+            n7 += 1
+            ctx.ob('C09.Q7', '%s::%s|%s' % (cat.short(cls), name, sig.replace(scalar, 'S')), not hits, f.where,
+                   'takes the logarithm of a value produced by exp(): `%s` is -inf/inf wherever the exponential leaves the range of %s, although the result is representable' % (
+                       hits[0] if hits else '', scalar), sample='%s::%s: no log(exp(..)) composition' % (cat.short(cls), name), nontrivial=False)
+    ctx.floor('evaluators_scanned_for_range_compression', n7, 150)
     # API templates (every MASA:: entry point of the long double instantiation) and what they reach: registry methods,
     # the parameter store (set_var / get_var / ...), helpers
     na = 0
